@@ -44,6 +44,7 @@ NoFbOnly    == {"none"}
 
 Emit == Done => PrintT(ToJson([t |-> "case", c |-> rq, e |-> O]))
 (* histories on one route object: the mutable file and a fixed one, with and without fallback *)
+QuickZones == {"UTC", "XXX5", "America/New_York", "Asia/Tokyo", "Pacific/Kiritimati"}
 PastOnly   == {"past"}
 AbsentOnly == {0}
 AnyM       == {0, 1, 2}
